@@ -8,7 +8,7 @@ import re
 from . import tlc as T
 
 
-def validate(ctx, module, events, tag=None, heap="6g", cfg=None):
+def validate(ctx, module, events, tag=None, heap="6g", cfg=None, spec_dir=None):
     """events: list of dicts each with 'tid'.  Returns list of (tid, line, clause)."""
     tag = tag or "%s_%s" % (module, ctx.pid)
     path = os.path.join(ctx.out, tag + ".ndjson")
@@ -17,7 +17,8 @@ def validate(ctx, module, events, tag=None, heap="6g", cfg=None):
             f.write(json.dumps(ev) + "\n")
     if not events:
         return []
-    res = T.run_tlc(module, cfg, workers=1, env={"TRACE_FILE": path}, tag=tag, coverage=False, heap=heap, allow_violation=False)
+    res = T.run_tlc(module, cfg, workers=1, env={"TRACE_FILE": path}, tag=tag, coverage=False, heap=heap, allow_violation=False,
+                    **({"spec_dir": spec_dir} if spec_dir else {}))
     ctx.states += res.distinct
     ctx.transitions += res.generated
     if res.distinct < len(events) + 1:
